@@ -172,3 +172,213 @@ Proof.
   rewrite (wrap_small I64 ((idx - 1) * reclen)) by i64_small.
   rewrite wrap_small by i64_small. lia.
 Qed.
+
+(* ------------------------------------------------------------------ the plan, in slot positions *)
+
+Lemma bool_eq_iff (a b : bool) : (a = true <-> b = true) -> a = b.
+Proof. destruct a, b; intuition congruence. Qed.
+
+(** a scan given in units of the record length *)
+Lemma in_scan_units r a L sl : 0 < r ->
+  in_scan r (Headersize + (a - 1) * r) (L * r) sl
+  = (a <=? s_pos sl) && (s_pos sl <? a + L) && negb (s_idx sl =? 0).
+Proof.
+  intros Hr. unfold in_scan, slot_off. f_equal. apply bool_eq_iff.
+  rewrite !andb_true_iff, !Z.leb_le, Z.ltb_lt. split; intros [A B]; split; nia.
+Qed.
+
+(** first and last position NewIOPlan scans in the file of year [y] *)
+Definition plan_first (tf : Z) (s : qtime) (y : Z) : Z :=
+  if y =? qyr s then TimeToIndex (q_go s) tf else 1.
+Definition plan_last (tf : Z) (e : qtime) (y : Z) : Z :=
+  if y =? qyr e then TimeToIndex (q_go e) tf else nslots tf y.
+Definition plan_count (tf : Z) (s e : qtime) (y : Z) : Z :=
+  let c := plan_last tf e y - plan_first tf s y + 1 in
+  if nslots tf y + 1 <? c then nslots tf y + 1 else c.
+
+Lemma plan_file_sane tf r s e y :
+  tf_ok tf -> 8 <= r <= 65536 -> sane_time s = true -> sane_time e = true -> 1 <= y <= 9999 ->
+  plan_file tf r (q_go s) (q_go e) y =
+  if (qyr s <=? y) && (y <=? qyr e)
+  then Some (Headersize + (plan_first tf s y - 1) * r, plan_count tf s e y * r) else None.
+Proof.
+  intros T Hr Hs He Hy.
+  destruct (q_year s Hs) as [Ys Rs]. destruct (q_year e He) as [Ye Re].
+  destruct (TimeToIndex_sane tf s T Hs) as (_ & _ & Ps). destruct (TimeToIndex_sane tf e T He) as (_ & _ & Pe).
+  destruct (nslots_mul tf y T) as [_ Rn].
+  unfold plan_file. rewrite Ys, Ye.
+  rewrite (wrap_small I16 (qyr s)) by (unfold in_ity, ity_min, ity_max; cbn [ity_signed ity_bits]; norm_pows; lia).
+  rewrite (wrap_small I16 (qyr e)) by (unfold in_ity, ity_min, ity_max; cbn [ity_signed ity_bits]; norm_pows; lia).
+  destruct ((qyr s <=? y) && (y <=? qyr e)); [|reflexivity].
+  unfold TimeToOffset. rewrite !IndexToOffset_sane by lia. rewrite file_size_sane by assumption.
+  unfold plan_count, plan_first, plan_last.
+  set (ps := TimeToIndex (q_go s) tf) in *. set (pe := TimeToIndex (q_go e) tf) in *. set (n := nslots tf y) in *.
+  assert (Bn : 0 <= n * r <= 366 * 86400 * 65536) by nia.
+  assert (Bs : - 65536 <= (ps - 1) * r <= 366 * 86400 * 65536) by nia.
+  assert (Be : - 65536 <= (pe - 1) * r <= 366 * 86400 * 65536) by nia.
+  unfold Headersize in *.
+  rewrite (wrap_small I64 (37024 + (pe - 1) * r + r)) by i64_small.
+  rewrite (wrap_small I64 (37024 + n * r - 37024)) by i64_small.
+  rewrite (wrap_small I64 (37024 + n * r - 37024 + r)) by i64_small.
+  destruct (y =? qyr s), (y =? qyr e).
+  - rewrite wrap_small by i64_small.
+    replace (37024 + (pe - 1) * r + r - (37024 + (ps - 1) * r)) with ((pe - ps + 1) * r) by lia.
+    replace (37024 + n * r - 37024 + r) with ((n + 1) * r) by lia.
+    replace ((n + 1) * r <? (pe - ps + 1) * r) with (n + 1 <? pe - ps + 1)
+      by (apply bool_eq_iff; rewrite !Z.ltb_lt; split; intros; nia).
+    destruct (n + 1 <? pe - ps + 1); reflexivity.
+  - rewrite wrap_small by i64_small.
+    replace (37024 + n * r - (37024 + (ps - 1) * r)) with ((n - ps + 1) * r) by lia.
+    replace (37024 + n * r - 37024 + r) with ((n + 1) * r) by lia.
+    replace ((n + 1) * r <? (n - ps + 1) * r) with (n + 1 <? n - ps + 1)
+      by (apply bool_eq_iff; rewrite !Z.ltb_lt; split; intros; nia).
+    destruct (n + 1 <? n - ps + 1); reflexivity.
+  - rewrite wrap_small by i64_small.
+    replace (37024 + (pe - 1) * r + r - 37024) with ((pe - 1 + 1) * r) by lia.
+    replace (37024 + n * r - 37024 + r) with ((n + 1) * r) by lia.
+    replace ((n + 1) * r <? (pe - 1 + 1) * r) with (n + 1 <? pe - 1 + 1)
+      by (apply bool_eq_iff; rewrite !Z.ltb_lt; split; intros; nia).
+    replace (37024 + (1 - 1) * r) with 37024 by lia.
+    destruct (n + 1 <? pe - 1 + 1); reflexivity.
+  - rewrite wrap_small by i64_small.
+    replace (37024 + n * r - 37024 + r) with ((n + 1) * r) by lia.
+    replace (37024 + n * r - 37024) with ((n - 1 + 1) * r) by lia.
+    replace ((n + 1) * r <? (n - 1 + 1) * r) with (n + 1 <? n - 1 + 1)
+      by (apply bool_eq_iff; rewrite !Z.ltb_lt; split; intros; nia).
+    replace (37024 + (1 - 1) * r) with 37024 by lia.
+    destruct (n + 1 <? n - 1 + 1); reflexivity.
+Qed.
+
+(** the positions NewIOPlan selects in the file of year [y] *)
+Definition selb (tf : Z) (s e : qtime) (y pos : Z) : bool :=
+  (qyr s <=? y) && (y <=? qyr e)
+  && ((plan_first tf s y <=? pos) && (pos <? plan_first tf s y + plan_count tf s e y)).
+
+Lemma scan_file_sel tf r s e y sls :
+  tf_ok tf -> 8 <= r <= 65536 -> sane_time s = true -> sane_time e = true -> 1 <= y <= 9999 ->
+  scan_file tf r (q_go s) (q_go e) (mkYF y sls) = filter (fun sl => selb tf s e y (s_pos sl) && occupied sl) sls.
+Proof.
+  intros T Hr Hs He Hy. unfold scan_file. cbn [y_year y_slots].
+  rewrite plan_file_sane by assumption. unfold selb.
+  destruct ((qyr s <=? y) && (y <=? qyr e)).
+  - apply filter_ext. intros sl. rewrite in_scan_units by lia. reflexivity.
+  - cbn [andb]. induction sls as [|sl sls IH]; [reflexivity | exact IH].
+Qed.
+
+Lemma slot_num_shift tf : exists d, (d = 0 \/ d = 1) /\ forall p, slot_num tf p = p - d.
+Proof. unfold slot_num. destruct (tf =? utils_Day); [exists 0 | exists 1]; split; auto; intros; lia. Qed.
+
+(** the heart of C11 for the plan: a well-placed slot is selected iff its interval start lies
+    between the start of the interval containing [s] and [e] *)
+Lemma selb_range tf s e y pos :
+  tf_ok tf -> sane_time s = true -> sane_time e = true -> 1 <= y <= 9999 -> pos_ok tf y pos = true ->
+  selb tf s e y pos =
+  (istart_ns tf s <=? slot_start_ns tf y pos) && (slot_start_ns tf y pos <=? q_ns e).
+Proof.
+  intros T Hs He Hy Hp. pose proof (tf_pos tf T) as P.
+  destruct (q_year s Hs) as [_ Rs]. destruct (q_year e He) as [_ Re].
+  pose proof (q_bracket s Hs) as Bs. pose proof (q_bracket e He) as Be.
+  destruct (TimeToIndex_sane tf s T Hs) as (Ns & Ns0 & Ps). destruct (TimeToIndex_sane tf e T He) as (Ne & Ne0 & Pe).
+  destruct (pos_ok_spec tf y pos T Hp) as (P1 & P2 & P3 & P4).
+  destruct (nslots_mul tf y T) as [_ Rn].
+  destruct (slot_num_shift tf) as (d & Hd & Sh).
+  unfold selb, plan_count, plan_first, plan_last, istart_ns.
+  change (year_of_days (fst s / 86400)) with (qyr s).
+  set (ps := TimeToIndex (q_go s) tf) in *. set (pe := TimeToIndex (q_go e) tf) in *.
+  set (N := nslots tf y) in *.
+  set (ks := (q_ns s - year_start_ns (qyr s)) / tf) in *.
+  set (ke := (q_ns e - year_start_ns (qyr e)) / tf) in *.
+  pose proof (div_mul_bracket (q_ns s - year_start_ns (qyr s)) tf P) as Ds. fold ks in Ds.
+  pose proof (div_mul_bracket (q_ns e - year_start_ns (qyr e)) tf P) as De. fold ke in De.
+  unfold slot_start_ns in *. rewrite Sh in *. set (n := pos - d) in *.
+  assert (Hps : ps = ks + d) by lia. assert (Hpe : pe = ke + d) by lia.
+  (* order facts between interval numbers and their starts *)
+  assert (M1 : ks <= n <-> ks * tf <= n * tf) by (symmetry; apply mul_le_cancel_r; lia).
+  assert (M2 : n <= ke <-> n * tf <= ke * tf) by (symmetry; apply mul_le_cancel_r; lia).
+  assert (M3 : n < ks -> n * tf + tf <= ks * tf) by (apply mul_lt_step; lia).
+  assert (M4 : ke < n -> ke * tf + tf <= n * tf) by (apply mul_lt_step; lia).
+  assert (Y1 : y < qyr s -> year_start_ns (y + 1) <= year_start_ns (qyr s)) by (intros; apply year_start_mono; lia).
+  assert (Y2 : qyr s < y -> year_start_ns (qyr s + 1) <= year_start_ns y) by (intros; apply year_start_mono; lia).
+  assert (Y3 : y < qyr e -> year_start_ns (y + 1) <= year_start_ns (qyr e)) by (intros; apply year_start_mono; lia).
+  assert (Y4 : qyr e < y -> year_start_ns (qyr e + 1) <= year_start_ns y) by (intros; apply year_start_mono; lia).
+  apply bool_eq_iff. rewrite !andb_true_iff, !Z.leb_le, !Z.ltb_lt.
+  destruct (Z.eqb_spec y (qyr s)) as [E1|E1]; destruct (Z.eqb_spec y (qyr e)) as [E2|E2];
+    try rewrite <- E1 in *; try rewrite <- E2 in *;
+    match goal with |- context [if ?c then _ else _] => destruct c eqn:Ec end;
+    try apply Z.ltb_lt in Ec; try apply Z.ltb_ge in Ec;
+    (split; [ intros ((A1 & A2) & A3 & A4) | intros (A1 & A2) ]); repeat split; lia.
+Qed.
+
+(* ------------------------------------------------------------------ list helpers *)
+
+Lemma filter_flat_map {A B} (P : B -> bool) (f : A -> list B) l :
+  filter P (flat_map f l) = flat_map (fun x => filter P (f x)) l.
+Proof. induction l as [|x l IH]; cbn; [reflexivity | now rewrite filter_app, IH]. Qed.
+
+Lemma filter_map_comm {A B} (P : B -> bool) (f : A -> B) l :
+  filter P (map f l) = map f (filter (fun x => P (f x)) l).
+Proof. induction l as [|x l IH]; cbn; [reflexivity|]. destruct (P (f x)); cbn; now rewrite IH. Qed.
+
+Lemma filter_filter {A} (P Q : A -> bool) l : filter P (filter Q l) = filter (fun x => Q x && P x) l.
+Proof. induction l as [|x l IH]; cbn; [reflexivity|]. destruct (Q x); cbn; [destruct (P x)|]; now rewrite IH. Qed.
+
+Lemma flat_map_ext_in {A B} (f g : A -> list B) l : (forall x, In x l -> f x = g x) -> flat_map f l = flat_map g l.
+Proof.
+  induction l as [|x l IH]; intros H; cbn; [reflexivity|].
+  rewrite (H x (or_introl eq_refl)), IH; [reflexivity | intros; apply H; now right].
+Qed.
+
+(* ------------------------------------------------------------------ unpacking well-formedness *)
+
+Lemma forallb_Forall {A} (f : A -> bool) l : forallb f l = true -> Forall (fun x => f x = true) l.
+Proof. intros H. apply Forall_forall. now apply forallb_forall. Qed.
+
+Lemma wf_bucket_tf b : wf_bucket b = true -> tf_ok (b_tf b).
+Proof. unfold wf_bucket. rewrite !andb_true_iff. intros ((((H & _) & _) & _) & _). now apply is_tf_ok. Qed.
+
+Lemma wf_bucket_files b : wf_bucket b = true -> Forall (fun f => wf_file b f = true) (b_files b).
+Proof. unfold wf_bucket. rewrite !andb_true_iff. intros (_ & H). now apply forallb_Forall. Qed.
+
+Lemma wf_bucket_reclen b : wf_bucket b = true -> 8 <= b_reclen b <= 65536.
+Proof.
+  unfold wf_bucket. rewrite !andb_true_iff. intros (((_ & H) & _) & _).
+  destruct (b_var b); rewrite !andb_true_iff, ?Z.eqb_eq, ?Z.leb_le in H; lia.
+Qed.
+
+Lemma wf_file_spec b f : wf_file b f = true ->
+  1 <= y_year f <= 9999 /\ strictly_asc (map s_pos (y_slots f)) = true
+  /\ Forall (fun sl => wf_slot b (y_year f) sl = true) (y_slots f).
+Proof.
+  unfold wf_file. rewrite !andb_true_iff, !Z.leb_le. intros (((A & B) & C) & D).
+  repeat split; try assumption. now apply forallb_Forall.
+Qed.
+
+Lemma wf_slot_pos b y sl : wf_slot b y sl = true ->
+  pos_ok (b_tf b) y (s_pos sl) = true /\ s_idx sl = s_pos sl /\ occupied sl = true.
+Proof.
+  unfold wf_slot. rewrite !andb_true_iff. intros ((A & B) & _). apply Z.eqb_eq in B.
+  split; [assumption|]. split; [assumption|].
+  unfold occupied. rewrite B. unfold pos_ok in A. apply andb_true_iff in A as [A _]. apply Z.leb_le in A.
+  destruct (Z.eqb_spec (s_pos sl) 0); [lia | reflexivity].
+Qed.
+
+(* ------------------------------------------------------------------ fixed-length buckets *)
+
+Theorem read_fixed_filter b s e :
+  wf_bucket b = true -> b_var b = false -> sane_time s = true -> sane_time e = true ->
+  read_fixed_rows b (q_go s) (q_go e) = filter (in_range_fixed (b_tf b) s e) (fixed_rows_all b).
+Proof.
+  intros W V Hs He. pose proof (wf_bucket_tf b W) as T. pose proof (wf_bucket_reclen b W) as Hr.
+  pose proof (wf_bucket_files b W) as Ff. rewrite Forall_forall in Ff.
+  unfold read_fixed_rows, fixed_rows_all. rewrite filter_flat_map.
+  apply flat_map_ext_in. intros f Hf. destruct (wf_file_spec b f (Ff f Hf)) as (Hy & _ & Fs).
+  destruct f as [y sls]. cbn [y_year y_slots] in *.
+  rewrite scan_file_sel by assumption. unfold fixed_rows_of. cbn [y_year].
+  rewrite filter_map_comm, filter_filter. apply f_equal.
+  apply filter_ext_in. intros sl Hsl. rewrite Forall_forall in Fs.
+  destruct (wf_slot_pos b y sl (Fs sl Hsl)) as (Hp & Hi & Ho).
+  rewrite Ho, andb_true_r. cbn [andb].
+  rewrite (selb_range _ s e y (s_pos sl) T Hs He Hy Hp).
+  unfold in_range_fixed, slot_epoch. cbn [fst]. rewrite Hi.
+  now rewrite (slot_epoch_wf _ y (s_pos sl) T Hy Hp).
+Qed.
